@@ -1,13 +1,5 @@
 (* C10 for Aztec: a boolean form of "the payload fits the requested / some configuration" *)
-From Verif Require Import Prelude Barcode AztecM AztecSpec AztecPBase AztecPConfig AztecPCompose AztecProps C10P.
-
-Definition az_representable_b (data : list Z) (pct req : Z) : bool :=
-  match az_highlevel data with
-  | Ok hl =>
-    if req =? 0 then existsb (fun j => fits_at hl (az_ecc_bits hl pct) j) (zseq 0 33)
-    else (-4 <=? req) && (req <=? 32) && az_fits hl (az_ecc_bits hl pct) (req <? 0) (Z.abs req)
-  | _ => false
-  end.
+From Verif Require Import Prelude Barcode AztecM AztecSpec AztecPBase AztecPConfig AztecPCompose AztecProps ReprSpec C10P.
 
 Lemma az_representable_reflect data pct req :
   az_representable_b data pct req = true <-> az_representable data pct req.
